@@ -1,11 +1,5 @@
 (* C03 -- property theorems (statements only; proofs live in proofs/). *)
-From Clip Require Import base.Geom.
-From Clip Require Import base.Winding.
-From Clip Require Import base.Dist.
-From Clip Require Import model.RingFinal.
-From Clip Require Import model.WfGeom.
-From Clip Require Import proofs.WfGeom.
-From Clip Require Import proofs.RingFinal.
+From Clip Require Import base.Geom base.Winding base.Dist model.RingFinal model.WfGeom proofs.WfGeom proofs.RingFinal.
 From Coq Require Import ZArith List Bool Floats.
 Import ListNotations.
 
